@@ -20,6 +20,9 @@ type Flags struct {
 	LoneSurrogate   bool // a \uD800..\uDFFF escape that is not part of a pair (replaced by U+FFFD here)
 	OddNumber       bool // a number with an exponent, with more than 15 significant digits, |v| > 2^53, or "-0"
 	Deep            bool // nesting deeper than DeepLimit
+	// NumberOutOfRange: a number beyond the float64 range (1e400); the text is rejected here, another
+	// parser may saturate. Set together with OddNumber.
+	NumberOutOfRange bool
 }
 
 // DeepLimit is the nesting depth beyond which a text is flagged Deep.
@@ -51,26 +54,36 @@ type parser struct {
 	b     []byte
 	pos   int
 	flags Flags
+	odd   int             // number of odd numbers seen so far
+	oddIn map[string]bool // members of the outermost object whose value contains an odd number
 }
 
 var errJSON = errors.New("invalid JSON")
 
 // ParseJSON parses a complete JSON text. The text must be valid UTF-8.
 func ParseJSON(b []byte) (any, Flags, error) {
+	v, flags, _, err := ParseJSONMembers(b)
+	return v, flags, err
+}
+
+// ParseJSONMembers is ParseJSON plus, when the text is an object, the names of those of its members
+// whose value is or contains an odd number (Flags.OddNumber says that there is one somewhere; this
+// says where, so that a caller can tell a registered claim from a custom one).
+func ParseJSONMembers(b []byte) (v any, flags Flags, oddMembers map[string]bool, err error) {
 	if !utf8.Valid(b) {
-		return nil, Flags{}, errors.New("JSON text is not valid UTF-8")
+		return nil, Flags{}, nil, errors.New("JSON text is not valid UTF-8")
 	}
-	p := &parser{b: b}
+	p := &parser{b: b, oddIn: map[string]bool{}}
 	p.ws()
-	v, err := p.value(1)
+	v, err = p.value(1)
 	if err != nil {
-		return nil, p.flags, err
+		return nil, p.flags, p.oddIn, err
 	}
 	p.ws()
 	if p.pos != len(p.b) {
-		return nil, p.flags, fmt.Errorf("%w: trailing data at offset %d", errJSON, p.pos)
+		return nil, p.flags, p.oddIn, fmt.Errorf("%w: trailing data at offset %d", errJSON, p.pos)
 	}
-	return v, p.flags, nil
+	return v, p.flags, p.oddIn, nil
 }
 
 func (p *parser) ws() {
@@ -150,7 +163,11 @@ func (p *parser) object(depth int) (any, error) {
 		}
 		p.pos++
 		p.ws()
+		oddBefore := p.odd
 		v, err := p.value(depth + 1)
+		if depth == 1 && p.odd != oddBefore {
+			p.oddIn[k] = true
+		}
 		if err != nil {
 			return nil, err
 		}
@@ -344,10 +361,13 @@ func (p *parser) number() (any, error) {
 	if err != nil {
 		// out of float64 range: a parser may reject the text or saturate; here: reject, flagged
 		p.flags.OddNumber = true
+		p.flags.NumberOutOfRange = true
+		p.odd++
 		return nil, fmt.Errorf("%w: number out of range at offset %d", errJSON, start)
 	}
 	if exp || sig > 15 || v > 1<<53 || v < -(1<<53) || (neg && v == 0) {
 		p.flags.OddNumber = true
+		p.odd++
 	}
 	return v, nil
 }
